@@ -244,6 +244,9 @@ Message *Message::factory(const F8MetaCntx& ctx, const f8String& from, bool no_c
 	}
 
 	const unsigned mlen(fast_atoi<unsigned>(len));
+	// the table also holds the pseudo messages "header" and "trailer": their entries build a MessageBase, never a Message
+	if (!::strcmp(mtype, "header") || !::strcmp(mtype, "trailer"))
+		throw InvalidMessage(mtype, FILE_LINE);
 	const BaseMsgEntry *bme(ctx._bme.find_ptr(mtype));
 	if (!bme)
 		throw InvalidMessage(mtype, FILE_LINE);
